@@ -90,6 +90,32 @@ theorem slot_position (pre post : List (Arg α)) (a : Arg α) (h : noVariadic pr
 theorem emit_slots_custom (args : List (Arg α)) : emitSlotsCustom args = flatten args :=
   trim_len _
 
+/-- **emit_identity_free.** Emission depends on the *positions and presence* of the arguments only,
+    never on which Var sits where: for any renaming `f` of the arguments — in particular a
+    non-injective one, i.e. the same Var passed in several slots (`clip(x, lo, x)`, `where(c, x, x)`,
+    `concat([a, b, a])`, `slice(x, k, n, k)`) — emitting the renamed node is renaming the emitted node.
+    Hence every slot theorem above holds verbatim when arguments repeat. -/
+theorem emit_identity_free {γ : Type} (f : α → γ) (n : NodeIn α β) :
+    emitNode { n with inputs := n.inputs.map (Arg.map f), outputs := n.outputs.map (Arg.map f) } =
+      { opType := (emitNode n).opType, domain := (emitNode n).domain,
+        inputs := (emitNode n).inputs.map (Option.map f),
+        outputs := (emitNode n).outputs.map (Option.map f),
+        attrs := (emitNode n).attrs } := by
+  cases h : n.mins with
+  | none => simp [emitNode, h, emitSlotsCustom_map]
+  | some m => obtain ⟨i, o⟩ := m; simp [emitNode, h, emitSlots_map]
+
+/-- the length of the emitted list and which of its entries are empty do not depend on the
+    arguments either (take `f` constant) -/
+theorem emit_shape_free (minN : Nat) (args : List (Arg α)) :
+    (emitSlots minN (args.map (Arg.map fun _ => ()))) = (emitSlots minN args).map (Option.map fun _ => ()) :=
+  emitSlots_map _ _ _
+
+/-- a repeated argument: `Clip(x, lo, x)` keeps all three names, `Clip(x, x)` keeps two -/
+example : emitSlots 1 [Arg.single "x", .opt (some "lo"), .opt (some "x")] = [some "x", some "lo", some "x"] := by
+  decide
+example : emitSlots 1 [Arg.single "x", .opt (some "x"), .opt none] = [some "x", some "x"] := by decide
+
 /-! ## attributes (unbounded) -/
 
 /-- **emit_attrs.** Exactly the attributes that are set (not `None`) are emitted, each under the
